@@ -316,6 +316,16 @@ Theorem C06_block_resumption_runs_kernel :
                          (rev acc ++ combine items (snd (inflow_loop P st (answered ans P items))))).
 Proof. intros T N ans P items st acc k. apply inflow_alg_is_inflow_loop. Qed.
 
+(* ... and the input of each query is what the item's record carries, i.e. what C10's K2 / C06's K3 compare with the known
+   dimensions / available width the implementation passed to the child *)
+Theorem C06_block_resumption_query_inputs :
+  forall (T : Type) (N : Num T) (P : Params T) (st : State T) (it : Item T) (co : ChildOut T),
+    position_is_absolute (it_position it) = false ->
+    bi_known (child_input P it) = ir_known (snd (inflow_step P st it co)) /\
+    s_w (bi_avail (child_input P it)) = Definite (ir_avail_w (snd (inflow_step P st it co))) /\
+    bi_parent (child_input P it) = mkSize (Some (p_outer_width P)) None /\ bi_mode (child_input P it) = PerformLayout.
+Proof. intros T N P st it co A. apply child_input_is_recorded. exact A. Qed.
+
 Print Assumptions C06_grid_never_placed.
 Print Assumptions C06_grid_estimate_absolute_refuted.
 Print Assumptions C06_grid_estimate_absolute_refuted_sibling.
@@ -332,3 +342,4 @@ Print Assumptions C06_block_algorithm_abs_blind.
 Print Assumptions C06_block_engine_instance.
 Print Assumptions C06_block_resumption_runs_kernel.
 Print Assumptions C06_block_content_width_ignores_absolute.
+Print Assumptions C06_block_resumption_query_inputs.
